@@ -5,7 +5,7 @@
 use super::*;
 use crate::current::CurrentFileStates;
 use super::super::hist::{oracle_c01, table_path, in_cache, in_ruler_dir};
-use super::super::scen::RULER_DIR;
+use super::super::scen::ruler_dir;
 use super::super::util::{cache_name_of, show_bytes};
 
 fn clock_name(c : ClockMode) -> &'static str
@@ -112,8 +112,8 @@ pub fn run_pair_probe(case : &Case, mut stats : Option<&mut Stats>) -> (Vec<Viol
                         }
                         else
                         {
-                            let wa = ia.after.workspace(RULER_DIR);
-                            let wb = ib.after.workspace(RULER_DIR);
+                            let wa = ia.after.workspace(&ruler_dir());
+                            let wb = ib.after.workspace(&ruler_dir());
                             for (p, (c, _)) in wa.iter()
                             {
                                 match wb.get(p)
